@@ -2,6 +2,7 @@ package drive
 
 import (
 	"context"
+	"database/sql"
 	"errors"
 	"fmt"
 	"io"
@@ -42,6 +43,18 @@ type faultDeps struct {
 	calls      *int64
 	failAt     int64
 	persistent bool
+	kind       int // which error the failing call returns (faultErrs)
+}
+
+// faultErrs are the injected storage failures: a generic connection error, a
+// cancelled query, a timeout, a closed connection. All wrap errFault so that they are
+// canonicalised to the same kind.
+var faultErrs = []error{
+	errFault,
+	fmt.Errorf("%w: %w", errFault, context.Canceled),
+	fmt.Errorf("%w: %w", errFault, context.DeadlineExceeded),
+	fmt.Errorf("%w: %w", errFault, sql.ErrConnDone),
+	fmt.Errorf("%w: %w", context.Canceled, errFault),
 }
 
 // callBudget bounds the cost of one check: beyond it every storage call fails, so
@@ -54,7 +67,7 @@ func (d *faultDeps) hit() error {
 		return errFault
 	}
 	if d.failAt != 0 && (n == d.failAt || (d.persistent && n > d.failAt)) {
-		return errFault
+		return faultErrs[d.kind%len(faultErrs)]
 	}
 	return nil
 }
@@ -316,7 +329,7 @@ func (e *engEnv) runCheck(c *EngCase, det bool) (res string, calls int64) {
 	}
 	defer func() { checkgroup.DefaultFactory = old }()
 	var n int64
-	deps := &faultDeps{RegistryDefault: e.reg, calls: &n, failAt: int64(c.FaultAt), persistent: c.FaultPersis}
+	deps := &faultDeps{RegistryDefault: e.reg, calls: &n, failAt: int64(c.FaultAt), persistent: c.FaultPersis, kind: c.FaultKind}
 	eng := check.NewEngine(deps)
 	defer func() {
 		if r := recover(); r != nil {
